@@ -149,7 +149,7 @@ def literal_cases(r, n):
         elif pos == "prio":
             t = "DEFINE PRIO %s FOO <V> AS $0 END DEFINE\nx := FOO 1" % L_
         else:
-            t = "DEFINE FOO <V> AS $%s END DEFINE\nx := 1" % L_
+            t = "DEFINE FOO <V> AS $%s END DEFINE\nx := FOO 1" % L_
         out.append((t, v, pos))
     return out
 
@@ -175,6 +175,8 @@ def work_lit(spec, part):
             problems.append("literal %d < 2^31-1 in position '%s' rejected for range" % (v, pos))
         if not want and pos != "ins" and not r_["ok"]:
             problems.append("valid program with in-range literal %d in position '%s' rejected: %s" % (v, pos, [e[1][:60] for e in r_["errors"][:2]]))
+        if pos == "ins" and not want and v == 0 and not r_["ok"]:
+            problems.append("valid use of $0 rejected: %s" % [e[1][:60] for e in r_["errors"][:2]])
         if pos == "ins" and not want and v >= 1 and r_["ok"]:
             problems.append("$%d beyond the single slot accepted" % v)
         if problems:
